@@ -12,7 +12,9 @@ type Context struct {
 	IsDefineArg    bool
 	IsArrayCollect bool
 	IsDefineStatic bool
-	round          string
+	// the condition of an if/unless is scanned once for narrowing before it is evaluated
+	IsConditionScan bool
+	round           string
 }
 
 func NewContext(class string, method string, round string) Context {
